@@ -357,6 +357,7 @@ where
         sample_per_level: HashMap<u32, Value>,
         err: Option<String>,
         fps: HashSet<u128>,
+        validated: u64,
     }
     let shared = Mutex::new(Shared {
         found: vec![],
@@ -366,6 +367,7 @@ where
         sample_per_level: HashMap::new(),
         err: None,
         fps: HashSet::new(),
+        validated: 0,
     });
     let runs = AtomicU64::new(0);
     let steps = AtomicU64::new(0);
@@ -484,6 +486,28 @@ where
         };
         runs.fetch_add(1, Ordering::Relaxed);
         steps.fetch_add(ex.choices.len() as u64, Ordering::Relaxed);
+        // determinism proof on a deterministic 1/32 selection of runs: re-execute the recorded
+        // choice list and require the identical fingerprint trace and outcome
+        if (fp128(&ex.choices) & 31) == 0 {
+            let mut v2 = vec![];
+            let mut fps2 = vec![];
+            match run_one::<H>(cfg, &ex.choices, horizon, &mut v2, &mut fps2) {
+                Ok((ex2, outcome2)) => {
+                    let tail = |f: &Vec<u128>| f.last().copied();
+                    if ex2.choices != ex.choices || outcome2 != outcome || tail(&fps2) != tail(&fps) || v2.len() != viols.len() {
+                        shared.lock().unwrap().set_err(format!("NONDETERMINISM: replay of {:?} diverged", ex.choices));
+                        capped.store(true, Ordering::Relaxed);
+                        return;
+                    }
+                    shared.lock().unwrap().validated();
+                }
+                Err(e) => {
+                    shared.lock().unwrap().set_err(e);
+                    capped.store(true, Ordering::Relaxed);
+                    return;
+                }
+            }
+        }
         maxlen.fetch_max(ex.choices.len() as u64, Ordering::Relaxed);
         {
             let mut s = shared.lock().unwrap();
@@ -518,6 +542,7 @@ where
 
     trait SharedAccess: Send {
         fn set_err(&mut self, e: String);
+        fn validated(&mut self);
         #[allow(clippy::too_many_arguments)]
         fn record(
             &mut self,
@@ -534,6 +559,9 @@ where
     impl SharedAccess for Shared {
         fn set_err(&mut self, e: String) {
             self.err = Some(e);
+        }
+        fn validated(&mut self) {
+            self.validated += 1;
         }
         fn record(
             &mut self,
@@ -580,6 +608,7 @@ where
     stats.transitions = steps.load(Ordering::Relaxed);
     stats.real_steps = stats.transitions;
     stats.states = s.fps.len() as u64;
+    stats.traces_validated = s.validated;
     stats.max_depth = maxlen.load(Ordering::Relaxed);
     stats.outcomes = s.outcomes;
     stats.per_level = s.per_level;
